@@ -21,13 +21,6 @@ Definition run_keyswitch (ps : list Z) (vs : list (list Z)) : option (list (list
 Definition run_c03 (code : Z) (ps : list Z) (vs : list (list Z)) : option (list (list Z)) :=
   match code with
   | 3001 | 3002 => run_keyswitch ps vs
-  | 3033 =>
-      (* GLWEPacker.combine feeds an input of another radix to glwe_sub, which asserts equal radices: the call that has to
-         combine it with a stored value (calls 2k and 2k+1 both carry a ciphertext) panics *)
-      let mask := x ps 3 in
-      if negb (h_in_b ps =? h_out_b ps) &&
-         existsb (fun k => Z.testbit mask (2 * Z.of_nat k) && Z.testbit mask (2 * Z.of_nat k + 1)) (seq 0 (h_n ps / 2))
-      then None else Some [[1]]
   | _ => Some [[1]]
   end.
 
